@@ -271,6 +271,10 @@ func Run(c *engine.Ctx) {
 		shapes("n3-e3", abc, abc, types2, abcx, 3)
 	}
 
+	// identifiers that coincide under case folding or trimming (an index that normalises its keys merges them)
+	near := []string{"n", "N", "n "}
+	shapes("near-ids-n3-e2", near, near, types1, append(append([]string{}, near...), " n"), 2)
+
 	// every edge type (and two undeclared numbers): chains and fans that are only connected through that type
 	c.Group("edge-types")
 	var ets []int
